@@ -116,6 +116,10 @@ def single_case(b: Batch, state, op, recursive, full, idx):
 
 # directed histories (regression corpus): events for changes made to a directory after it left the tree must never appear
 CORPUS = [
+    {"seed": 14, "recursive": True, "n_root": 0, "n_out": 0, "final_probes": False, "probe_p": 0.0, "delay": 0.1,
+     "script": [["mkdir", "root/b"], ["mkdir", "root/a"], ["drain"], ["create", "root/a/f"], ["drain"], ["rename", "root/a", "root/b"], ["drain"],
+                ["move_out", "root/b", "out/o9"], ["drain"], ["mkdir", "root/b"], ["drain"], ["unlink", "out/o9/f"], ["create", "out/o9/g"], ["drain"],
+                ["create", "root/b/h"], ["drain"]]},
     {"seed": 11, "recursive": True, "n_root": 0, "n_out": 0, "final_probes": False, "probe_p": 0.0, "delay": 0.1,
      "script": [["mkdir", "root/a"], ["drain"], ["move_out", "root/a", "out/o9"], ["drain"], ["create", "out/o9/x"], ["write", "out/o9/x"], ["mkdir", "out/o9/d"], ["drain"]]},
     {"seed": 12, "recursive": True, "n_root": 0, "n_out": 0, "final_probes": False, "probe_p": 0.0, "delay": 0.1,
